@@ -312,3 +312,20 @@ Proof.
   - intros. cbn. apply fb_feed_remainder_fits with (content := content); assumption.
   - intros. cbn. apply cz_remainder_fits; assumption.
 Qed.
+
+(* the same for the file-based framer while its loader leaves the file position at the end after each EOFError (an
+   invariant kept by such a loader), and for the compressors when unused_data is the tail of the completing chunk *)
+Lemma error_remainder_is_suffix_generic_pf :
+  (forall P limit (load : bytes -> lres P) expected st chunk, fb_at_end st ->
+      event_suffix (fb_acc st ++ chunk) (ffeed (fb_framer limit load expected) st chunk)) /\
+  (forall P limit (load : bytes -> lres P) expected st chunk st',
+      (forall content pos, load content = LEof pos -> pos = length content) ->
+      ffeed (fb_framer limit load expected) st chunk = Need st' -> fb_at_end st') /\
+  (forall P D dnew (dd : D -> bytes -> (D * bytes) + Z) deof dunused expected (inner : bytes -> ores P) inner_declared st chunk,
+      (forall d c d' out, dd d c = inl (d', out) -> deof d' = true -> suffix_of (dunused d') c) ->
+      event_suffix chunk (ffeed (cz_framer D dnew dd deof dunused expected inner inner_declared) st chunk)).
+Proof.
+  split; [intros; apply fb_feed_suffix; assumption|].
+  split; [intros; eapply fb_feed_keeps_at_end; eauto|].
+  intros; apply cz_feed_suffix; assumption.
+Qed.
